@@ -4,7 +4,7 @@ import json
 from harness.core import cbool, clist, cstr, cz
 
 ID = "C04"
-MODEL_TARGETS = ["C04/Cases.vo"]
+MODEL_TARGETS = ["C04/Cases.vo", "C04/Gen.vo"]
 PROOF_TARGETS = ["C04/Gen.vo", "C04/Bridge.vo", "C04/Proofs.vo", "C04/SetGet.vo", "C04/State.vo"]
 OBLIGATION_FILES = ["C04/Bridge.v"]
 PROPS_FILE = "C04/Props.v"
@@ -12,13 +12,23 @@ SHARD = 150
 PER_CASE_TIMEOUT = 120
 RULE = ("(static, exhaustive) one case per deviation the ast extractor finds in the class table of "
         "EVERY estimator class of sktime/**/*.py (constructor not verbatim / guard not first / "
-        "parameter reassigned by fit or an apply-type method): known ones match an open finding, a new "
-        "one is a violation; (dynamic, per runnable class) p_ctor: one case per (class, constructor "
+        "parameter reassigned by fit or an apply-type method / fit not returning self or not setting the "
+        "flag last / a set_params written in the package that can complete before the names are "
+        "validated): known ones match an open finding, a new one is a violation; (dynamic, per runnable class) p_ctor: one case per (class, constructor "
         "parameter): six probe values (a unique sentinel object, np.int64, float, str, None, []) are "
         "passed and the attribute of that name must be the very object passed; p_params, one case per "
         "aspect: get (keys = signature, arguments returned, deep contains shallow), roundtrip "
         "(set_params(**get_params())), clone (equal parameters, no shared mutable parameter object), "
-        "unknown (unknown name -> ValueError), flag (fresh and cloned not fitted); p_apply: one case "
+        "unknown (unknown name -> ValueError), flag (fresh and cloned not fitted); p_unknown, one case "
+        "per (class, shape of the unknown name: top-level / below a nonexistent component with a real "
+        "parameter name as tail / below every real estimator-valued parameter or component, shallowest "
+        "and deepest / below a non-estimator parameter): 3 values for the unknown name (None, an "
+        "object that IS the current value of a real parameter, a fresh object) x 3 companies (alone, "
+        "followed by a valid name with its current value, with a fresh value), each on a fresh "
+        "instance: ValueError required (any of ValueError/AttributeError/TypeError below a "
+        "non-estimator), no attribute of that name left, and the valid companion applied exactly as "
+        "scikit-learn's BaseEstimator.set_params does (not applied for an unknown top-level name or "
+        "component, applied for an unknown name below a valid head); p_apply: one case "
         "per (class, apply-type method, phase): called with valid arguments on a fresh instance / on a "
         "clone of a fitted instance, NotFittedError expected and the flag unchanged (update_predict both "
         "with cv=None and with a splitter); p_fit: fit returns self, sets is_fitted, leaves every "
@@ -28,7 +38,9 @@ RULE = ("(static, exhaustive) one case per deviation the ast extractor finds in 
         "MultiplexForecaster, StackingForecaster, TransformedTargetForecaster, "
         "ForecastingGridSearchCV, ColumnEnsembleClassifier, FeatureUnion: get_params(deep), "
         "set_params with whole-list / component / nested keys in random key order (incl. unknown "
-        "names at random depth), set_params(**get_params(deep=True)), clone (no shared object at any "
+        "names at random depth; plus a stream of calls with ONE unknown name in every shape, with "
+        "value None / the current value of a real parameter / a fresh value, alone or with a valid "
+        "no-op or fresh key), set_params(**get_params(deep=True)), clone (no shared object at any "
         "depth), fit/apply/clone histories (fixed short ones for every method + random). non-trivial = "
         "static deviation, or a dynamic case that exercised the real object (not skipped), or a tree of "
         "depth >= 2; distinct = distinct canonical JSON case")
@@ -405,6 +417,40 @@ def _rand_assignments(rng, t):
     return items
 
 
+def _unknown_assignments(rng, t):
+    """One UNKNOWN name (top-level / below a nonexistent component with a real parameter name as tail
+    / below a real component at a random depth, with or without a real tail) with value None, the
+    current value of a real parameter, or a fresh value; alone, or together with a valid key carrying
+    its current value (a no-op) or a fresh value.  Every such call must be rejected."""
+    paths = _paths(t)
+    p, v = rng.choice(paths)
+    shape = rng.choice(["top", "nocomp", "below", "below", "below_tail"])
+    if shape == "top":
+        key = ["zz"]
+    elif shape == "nocomp":
+        key = ["zz", p[-1]]
+    else:
+        comps = [q for q, w in paths if "e" in w]
+        if comps:
+            key = list(rng.choice(comps)) + ["zz"] + ([p[-1]] if shape == "below_tail" else [])
+        else:
+            key = ["zz"]
+    val = rng.choice(["none", "none", "current", "fresh"])
+    value = {"n": None} if val == "none" else (copy_value(v) if val == "current" else {"i": rng.randint(20, 29)})
+    asg = [[key, value]]
+    mix = rng.choice(["alone", "alone", "valid_same", "valid_fresh"])
+    if mix != "alone":
+        p2, v2 = rng.choice(paths)
+        asg.append([list(p2), copy_value(v2) if mix == "valid_same" else _rand_value_like(rng, v2)])
+        rng.shuffle(asg)
+    return asg, shape, val, mix
+
+
+def copy_value(v):
+    import copy
+    return copy.deepcopy(v)
+
+
 def gen_cases(rng, tier):
     from translator import classtable
     t = _table()
@@ -426,6 +472,8 @@ def gen_cases(rng, tier):
     for d in classtable.fit_deviations(t):
         cases.append(dict(kind="fit_static", benign=[d["owner"], d["returns"], d["flag"]] in known["benign_fit"]
                           and not d["early"], **d))
+    for d in classtable.setparams_deviations(t):
+        cases.append(dict(kind="setparams_static", **d))
     benign_cm = set((d["cls"], d["method"]) for d in guard if benign(d))
     # dynamic per-class cases: the driver decides what is importable; cases carry module + name
     for k in sorted(t.rows, key=lambda k: t.rows[k]["key"]):
@@ -445,6 +493,8 @@ def gen_cases(rng, tier):
                 cases.append(dict(base, kind="p_ctor", param=p))
         for aspect in PARAM_ASPECTS:
             cases.append(dict(base, kind="p_params", aspect=aspect))
+        for shape in UNKNOWN_SHAPES:
+            cases.append(dict(base, kind="p_unknown", shape=shape))
         concrete = not (r["name"].startswith("_") or r["name"].startswith("Base"))
         if concrete:
             for m, st in r["methods"]:
@@ -472,6 +522,18 @@ def gen_cases(rng, tier):
         for _ in range(3 * per):
             # est.set_params(**est.get_params(deep=True)) on a random composition
             cases.append({"kind": "tree_setget", "tree": _tree(rng, f)})
+    # unknown names in every shape / value / company (own random stream: the cases above keep their
+    # sequence)
+    import random as _random
+    r2 = _random.Random("unknown-%r" % (rng.getstate()[1][:3],))
+    for f in forces:
+        for _ in range(8 * per):
+            tr = _tree(r2, f)
+            asg, shape, val, mix = _unknown_assignments(r2, tr)
+            cases.append({"kind": "tree_set", "tree": tr, "asg": asg, "unknown": [shape, val, mix],
+                          "colens_list_with_other": bool(
+                              tr["cls"] == "ColumnEnsembleClassifier" and len(asg) > 1
+                              and any(p == ["estimators"] for p, _ in asg))})
     fc_m = ["predict", "update", "update_predict_single", "score"]
     hist_classes = {"NaiveForecaster": fc_m, "PolynomialTrendForecaster": fc_m,
                     "EnsembleForecaster": fc_m,
@@ -943,6 +1005,116 @@ def _run_p_params(case, cls):
     return out
 
 
+UNKNOWN_SHAPES = ["top", "nocomp", "nested", "nonest"]
+UNKNOWN_VALUES = ["none", "current", "fresh"]
+UNKNOWN_MIXES = ["alone", "valid_same", "valid_fresh"]
+
+
+def _is_estimator_value(x):
+    return hasattr(x, "get_params") and hasattr(x, "set_params") and not isinstance(x, type)
+
+
+def _run_p_unknown(case, cls):
+    """set_params with an UNKNOWN name, for every class: shape of the name (top-level / below a
+    nonexistent component / below a real estimator-valued parameter or named component, at every
+    depth available / below a parameter that is not an estimator) x value passed for it (None / an
+    object that IS the current value of a real parameter / a fresh object) x company (alone / after
+    it a valid name with its current value / a valid name with a fresh value).  Every call is made on
+    a fresh instance; recorded: the exception type (or 'accepted'), whether the valid companion was
+    applied, whether the object grew an attribute of the unknown name."""
+    shape = case["shape"]
+    try:
+        est, _ = _make(cls, case["name"])
+    except Exception as e:
+        return {"skip": "not constructible here: %s: %s" % (type(e).__name__, str(e)[:80])}
+    try:
+        shallow = est.get_params(deep=False)
+        deep = est.get_params(deep=True)
+    except NotImplementedError:
+        return {"skip": "abstract class (get_params not implemented)"}
+    except Exception as e:
+        return {"skip": "get_params raises %s (reported by the 'get' aspect of p_params)" % type(e).__name__}
+    names = sorted(shallow)
+    if not names:
+        if shape in ("nested", "nonest"):
+            return {"skip": "no parameters"}
+    tail = names[0] if names else "x"
+    if shape == "top":
+        keys = ["zz_unknown"]
+    elif shape == "nocomp":
+        keys = ["zz_nosuch__" + tail]
+    elif shape == "nested":
+        ek = sorted((k for k, v in deep.items() if _is_estimator_value(v)), key=lambda k: (k.count("__"), k))
+        if not ek:
+            return {"skip": "no estimator-valued parameter or component"}
+        keys = [ek[0] + "__zz_unknown"]
+        if ek[-1] != ek[0]:
+            keys.append(ek[-1] + "__zz_unknown")       # the deepest one as well
+    elif shape == "nonest":
+        cand = [k for k in names if shallow[k] is None] or [k for k in names if not _is_estimator_value(shallow[k])]
+        if not cand:
+            return {"skip": "every parameter is an estimator"}
+        keys = [cand[0] + "__zz_unknown"]
+    else:
+        raise AssertionError(shape)
+    only = case.get("only")
+    res = {}
+    # parameters that set_params can write at all (read-only properties - an open finding on the
+    # benchmarking strategies - cannot serve as the valid companion of the unknown name)
+    settable = []
+    for k in names:
+        if shallow[k] is None or isinstance(shallow[k], (bool, int, float, str)):
+            try:
+                e0, _ = _make(cls, case["name"])
+                e0.set_params(**{k: e0.get_params(deep=False)[k]})
+                settable.append(k)
+            except Exception:
+                pass
+            if len(settable) >= 2:
+                break
+    for ki, key in enumerate(keys):
+        for val in UNKNOWN_VALUES:
+            for mix in UNKNOWN_MIXES:
+                if only and [ki, val, mix] != only:
+                    continue
+                # the valid companion: a plain parameter (not an estimator, not a component list,
+                # not the head of the unknown key), so that writing a fresh object to it is harmless
+                plain = [k for k in settable if k != key.split("__")[0]]
+                if mix != "alone" and not plain:
+                    continue
+                e2, _ = _make(cls, case["name"])
+                sh2 = e2.get_params(deep=False)
+                q = plain[0] if plain else None
+                if val == "none":
+                    v = None
+                elif val == "current":
+                    if not names:
+                        continue
+                    v = sh2[tail]
+                else:
+                    v = _Sentinel("unknown")
+                kw = {key: v}
+                fresh = _Sentinel("valid")
+                if mix == "valid_same":
+                    kw[q] = sh2[q]
+                elif mix == "valid_fresh":
+                    kw[q] = fresh
+                try:
+                    r = e2.set_params(**kw)
+                    o = "accepted" if r is e2 else "accepted-returned-other"
+                except Exception as e:
+                    o = type(e).__name__
+                rec = {"outcome": o, "valid": q}
+                if mix == "valid_fresh":
+                    try:
+                        rec["valid_applied"] = e2.get_params(deep=False).get(q) is fresh
+                    except Exception:
+                        rec["valid_applied"] = "get_params-raised"
+                rec["grew_attr"] = hasattr(e2, "zz_unknown") or hasattr(e2, "zz_nosuch")
+                res["%s|%s|%s" % (key, val, mix)] = rec
+    return {"calls": res}
+
+
 def _is_mutable_param(x):
     """Parameter values whose sharing between an estimator and its clone is observable."""
     return hasattr(x, "get_params") and not isinstance(x, type) or isinstance(x, (list, dict, set))
@@ -1183,7 +1355,7 @@ def _run_hist(case):
 
 def run_impl(case):
     k = case["kind"]
-    if k in ("ctor_static", "guard_static", "mut_static", "fit_static"):
+    if k in ("ctor_static", "guard_static", "mut_static", "fit_static", "setparams_static"):
         return {"static": True}
     if k.startswith("tree_"):
         try:
@@ -1200,6 +1372,8 @@ def run_impl(case):
         return _run_p_ctor(case, cls)
     if k == "p_params":
         return _run_p_params(case, cls)
+    if k == "p_unknown":
+        return _run_p_unknown(case, cls)
     if k == "p_apply":
         return _run_p_apply(case, cls)
     if k == "p_fit":
@@ -1227,6 +1401,9 @@ def oracle(case, out):
         return "fit-contract: %s.fit (body of %s): completing paths return %s, fitted flag %s%s" % (
             case["cls"], case["owner"], case["returns"], case["flag"],
             ", and the flag is set before the end of fit" if case["early"] else "")
+    if k == "setparams_static":
+        return ("set-params-unvalidated: %s.set_params (body of %s) can complete before the parameter names "
+                "are validated: %s" % (case["cls"], case["owner"], case["what"]))
     if k == "mut_static":
         return "param-reassigned: %s.%s reaches code of %s assigning self.%s" % (
             case["cls"], case["method"], case["owner"], case["param"])
@@ -1275,6 +1452,28 @@ def oracle(case, out):
                 return "fresh-is-fitted: %s().is_fitted = %r" % (case["cls"], out["fresh_fitted"])
             if out.get("clone_fitted") not in (False, "n/a"):
                 return "clone-is-fitted: clone(%s()).is_fitted = %r" % (case["cls"], out.get("clone_fitted"))
+        return None
+    if k == "p_unknown":
+        want = ("ValueError",) if case["shape"] != "nonest" else ("ValueError", "AttributeError", "TypeError")
+        for call in sorted(out["calls"]):
+            rec = out["calls"][call]
+            key, val, mix = call.split("|")
+            txt = "%s().set_params(%s=<%s>%s)" % (
+                case["cls"], key, {"none": "None", "current": "current value of a real parameter",
+                                   "fresh": "fresh object"}[val],
+                {"alone": "", "valid_same": ", %s=<its current value>" % rec["valid"],
+                 "valid_fresh": ", %s=<fresh object>" % rec["valid"]}[mix])
+            if rec["outcome"] not in want:
+                return "unknown-name: %s: %s (expected %s)" % (txt, rec["outcome"], "/".join(want))
+            if rec["grew_attr"]:
+                return "unknown-name-stored: %s was rejected but left an attribute of that name" % txt
+            # scikit-learn's BaseEstimator.set_params (the unknown name comes first in the call): an
+            # unknown top-level name / component is detected before anything is written; an unknown
+            # name BELOW a valid head is detected after the flat names have been written
+            if "valid_applied" in rec and rec["valid_applied"] is not (case["shape"] in ("nested", "nonest")):
+                return ("unknown-name-partial: %s: the valid name was %s (BaseEstimator.set_params: %s)" % (
+                    txt, "applied" if rec["valid_applied"] else "not applied",
+                    "applied" if case["shape"] in ("nested", "nonest") else "not applied"))
         return None
     if k == "p_apply":
         m = case["method"]
@@ -1484,6 +1683,11 @@ def nontrivial(case, out):
 
 def shrink(case):
     k = case["kind"]
+    if k == "p_unknown" and "only" not in case:
+        for ki in (0, 1):
+            for val in UNKNOWN_VALUES:
+                for mix in UNKNOWN_MIXES:
+                    yield dict(case, only=[ki, val, mix])
     if k == "tree_set":
         asg = case["asg"]
         if len(asg) > 1:
@@ -1508,6 +1712,7 @@ def shrink(case):
 
 CASES_HEADER = """From Coq Require Import ZArith List Bool String.
 Require Import SkV.Lib.Base SkV.C04.Model SkV.C04.Cases.
+Require SkV.C04.Table SkV.C04.Gen.
 Import ListNotations.
 Open Scope string_scope.
 Open Scope list_scope.
@@ -1600,6 +1805,9 @@ def coq_model_term(case):
     if k in ("ctor_static", "p_ctor"):
         return ("option_map (fun r => (r_key r, r_init r)) (SkV.C04.Table.lookup_row "
                 "SkV.C04.Gen.class_table %s)" % cstr(case["cls"]))
+    if k in ("setparams_static", "p_unknown"):
+        return ("option_map (fun r => r_setparams r) (SkV.C04.Table.lookup_row SkV.C04.Gen.class_table %s)"
+                % cstr(case["cls"]))
     if k == "fit_static":
         return ("option_map (fun r => r_fit r) (SkV.C04.Table.lookup_row SkV.C04.Gen.class_table %s)"
                 % cstr(case["cls"]))
@@ -1620,6 +1828,11 @@ def distribution(cases, results):
         elif k == "tree_set":
             d["tree_set:%s" % ("rejected" if "err" in o else "accepted")] += 1
             d["tree_set:keys=%d" % len(c["asg"])] += 1
+            if "unknown" in c:
+                d["tree_set:unknown:%s/%s/%s" % tuple(c["unknown"])] += 1
+        elif k == "p_unknown":
+            d["p_unknown:%s:classes" % c["shape"]] += 1
+            d["p_unknown:%s:calls" % c["shape"]] += len(o.get("calls", {}))
         elif k in ("tree_get", "tree_clone", "tree_setget"):
             d["%s:depth=%d" % (k, _depth(c["tree"]))] += 1
         elif k == "p_apply":
